@@ -18,6 +18,14 @@ CHECKS = {
         "DESIGN.md §2 C15",
         "E5 pure",
     ),
+    "C20": (
+        "exploration",
+        "property-based testing (Hypothesis): round-trip + differential against an independent reference encoder/decoder of the wire protocol, over st.builds strategies for every model class and every OperationUpdate factory",
+        "Every model class is generated with optional fields absent/empty/present; to_dict/from_dict and to_json_dict/from_json_dict are checked to be inverses modulo the property's stated exemptions, to_dict is compared with a reference encoder written from the protocol field names (so a consistent encode+decode swap is caught), from_dict is run on the reference's output, factories must put every option on the wire, and TimestampConverter is checked against integer arithmetic. Sampling, not proof.",
+        "Trusts the reference encoder in vf/props/c20.py and the normal form (empty optional string == absent; all-absent sub-structure == absent). Timestamps are aware and within 1971-2100.",
+        "DESIGN.md §2 C20",
+        "E5 pure",
+    ),
 }
 
 NOT_APPLICABLE: list = []
